@@ -76,6 +76,8 @@ TOKENS = [
     "nil", "nil:", "nilx", "NIL", "t", "tt", "T", "#nil", "#t", "#f", "#true", ":nil", "#:t", "#tx", "#f9", "#nilx", "#t#f", "#false", "#t'a",
     # names ending in a dot (a lone dot is the pair marker), over-long digit runs, wrong closing brackets
     "\u03bb.", "\u00e9..", "-..", "+..", "#%.", "a.", "18446744073709551616", "99999999999999999999999", "#(a]", "#(a b]", "'", ",@",
+    # bracketed and parenthesised forms as tokens: with the contexts they stand after a pair dot, inside vectors, ...
+    "[a]", "[]", "(a)", "#(a)", "[a . b]", "'[a]",
     # characters
     "?a", "?\\(", "?", "?ab", "?\\x41", "?λ", "a?b", "#\\a", "#\\space", "#\\x41", "#\\(", "#\\λ", "#\\nul", "#\\spac",
     # racket
